@@ -556,30 +556,28 @@ func (ctx Ctx) methodExpr(call *ast.CallExpr) coq.Expr {
 	args := call.Args
 	// discovered this API via
 	// https://go.googlesource.com/example/+/HEAD/gotypes#named-types
-	if ctx.info.Types[call.Fun].IsType() {
+	if tv := ctx.info.Types[call.Fun]; tv.IsType() {
+		// conversions are told apart by the types involved, not by how the
+		// target type is spelled ([]byte, []uint8, ([]byte), a defined type)
+		to := tv.Type.Underlying()
+		from := ctx.typeOf(args[0]).Underlying()
 		// string -> []byte conversions are handled specially
-		if f, ok := call.Fun.(*ast.ArrayType); ok {
-			if f.Len == nil && (isIdent(f.Elt, "byte") || isIdent(f.Elt, "uint8")) {
-				arg := args[0]
-				if isString(ctx.typeOf(arg)) {
-					return ctx.newCoqCall("StringToBytes", args)
-				}
-			}
+		if isByteSlice(to) && isString(from) {
+			return ctx.newCoqCall("StringToBytes", args)
 		}
 		// []byte -> string are handled specially
-		if f, ok := call.Fun.(*ast.Ident); ok && f.Name == "string" {
-			arg := args[0]
-			if isString(ctx.typeOf(arg).Underlying()) {
+		if isString(to) {
+			if isString(from) {
 				return ctx.expr(args[0])
 			}
-			if !isByteSlice(ctx.typeOf(arg)) {
+			if !isByteSlice(from) {
 				ctx.unsupported(call,
-					"conversion from type %v to string", ctx.typeOf(arg))
+					"conversion from type %v to string", ctx.typeOf(args[0]))
 				return coq.CallExpr{}
 			}
 			return ctx.newCoqCall("StringFromBytes", args)
 		}
-		if b, ok := ctx.info.Types[call.Fun].Type.(*types.Basic); ok && b.Info()&types.IsNumeric != 0 {
+		if b, ok := tv.Type.(*types.Basic); ok && b.Info()&types.IsNumeric != 0 {
 			// uint64, uint32 and uint8 are converted by integerConversion;
 			// the other predeclared numeric types are not supported, and
 			// converting to one of them must not be the identity
